@@ -45,7 +45,7 @@ var hrefPool = []string{"http://example.com/", "https://a.b/c", "//cdn.x/y", "/l
 	// surrounded by spaces / holding tab or newline: the URL parser of a browser removes them first
 	" //padded.example/", "  //padded.example/x ", "\t//tab.example/", "/\t/tab.example/", "//new\nline.example/", " /local ", "\n//nl.example/",
 	// forms in which only a browser finds a host
-	"http:/evil.example", "https:evil.example/x", "https:\\\\evil.example", "///evil.example/", "/\\evil.example", "\\\\evil.example/p", "\\/evil.example", "HTTP:\\evil.example", "/%2F/evil.example/^", "ftp:/files.example/", "/\\/evil.example", "x-app:/local", "mailto:/x"}
+	"http:/evil.example", "https:evil.example/x", "https:\\\\evil.example", "///evil.example/", "/\\evil.example", "\\\\evil.example/p", "\\/evil.example", "HTTP:\\evil.example", "/%2F/evil.example/^", "ftp:/files.example/", "/\\/evil.example", "x-app:/local", "mailto:/x", "file:\\\\files.example\\x", "file:///local/x", "FILE:\\/files.example/x"}
 var targetPool = []string{"_blank", "_self", "foo", "_BLANK", "", "_blank ", "_top", "_Blank", "x\n<", "a\t<b", "_blan\u212a", "x\ny"}
 
 func genC11(t *rapid.T) *Case {
@@ -84,7 +84,7 @@ func genC11(t *rapid.T) *Case {
 		spec.Ops[0].Attrs = rest
 		spec.Ops = append(spec.Ops, Op{Kind: "AllowAttrs", Attrs: []string{"href"}, Scope: "global", ValRe: -1})
 	}
-	spec.Ops = append(spec.Ops, nr(Op{Kind: "AllowURLSchemes", Names: []string{"http", "https", "mailto"}}), nr(Op{Kind: "AllowRelativeURLs", B: true}))
+	spec.Ops = append(spec.Ops, nr(Op{Kind: "AllowURLSchemes", Names: []string{"http", "https", "mailto", "file"}}), nr(Op{Kind: "AllowRelativeURLs", B: true}))
 	optKinds := []string{"RequireNoFollowOnLinks", "RequireNoFollowOnFullyQualifiedLinks", "RequireNoReferrerOnLinks", "RequireNoReferrerOnFullyQualifiedLinks", "AddTargetBlankToFullyQualifiedLinks"}
 	for _, k := range optKinds {
 		switch rapid.IntRange(0, 3).Draw(t, k) {
@@ -205,7 +205,8 @@ func checkC11(c *Case, r *Rec) error {
 			return violation(out, "C11: <%s href=%q> lacks the rel token noreferrer (rel=%q)", tk.Name, href, rel)
 		}
 		if tk.Name == "a" {
-			if m.targetBlank && fq && !(hasT && blankTarget(tgt)) {
+			if m.targetBlank && fq && !(hasT && tgt == "_blank") {
+				// (literally: this is the value the sanitiser itself writes)
 				return violation(out, "C11: <a href=%q> has a host but target=%q (present=%v) instead of _blank", href, tgt, hasT)
 			}
 			if anyOpt && hasT && blankTarget(tgt) && !hasTok(rel, "noopener") {
